@@ -230,7 +230,27 @@ def _shorthand(c, s):
         return (type(e).__name__, str(e)[:60])
 
 
+_MISSING = object()
 def run_impl(c):
+    if not c.get('legacydict'):
+        return _run_impl(c)
+    # another part of the program customises the pylatexenc-1 module-level dictionary `utf82latex` (documented: it alters
+    # utf8tolatex() only; the built-in rule sets of the new API are not affected)
+    from pylatexenc import latexencode as le
+    edits = {ord('$'): '$', 0x20AC: '\u20ac', 0x0E18: '\u0e18', ord('{'): '{', 0xE9: '\u00e9', ord('%'): '%'}
+    saved = dict((k, le.utf82latex.get(k, _MISSING)) for k in edits)
+    for k, v in edits.items():
+        le.utf82latex[k] = v
+    try:
+        return _run_impl(c)
+    finally:
+        for k, v in saved.items():
+            if v is _MISSING:
+                le.utf82latex.pop(k, None)
+            else:
+                le.utf82latex[k] = v
+
+def _run_impl(c):
     s = c['s']
     sn = NFC(s)
     table = builtin_table(c['table'])
@@ -397,6 +417,15 @@ def cases(tier, rng):
                 t_, p_, q_ = rng.choice(COMBOS)
                 yield encp(s, t_, p_, 'fail')
                 yield encp(s, t_, p_, q_)
+    # 0f. while the legacy dictionary utf82latex is customised by someone else
+    for _ in range(400 if quick else 6000):
+        s = ''.join(rng.choice(['$', '\u20ac', '\u0e18', '{', '}', '\xe9', '%', 'a', ' ', '5']) for _ in range(rng.randint(1, 6)))
+        t_, p_, q_ = rng.choice(COMBOS)
+        c = encp(s, t_, p_, q_)
+        c['legacydict'] = True
+        if rng.random() < 0.3:
+            c['via'] = 'ruleobjs'; c['hist'] = []
+        yield c
     # 0d. the table given as rule objects, the list object shared with encoders built before
     HIST = ['partial', 'partial-use', 'plain-none', 'plain-nao']
     for _ in range(700 if quick else 10000):
